@@ -1,6 +1,6 @@
 (* C15 model driver: reads histories (one op per line, `H <id>` starts a new history) on stdin, runs
    the extracted Gallina `step`, prints one canonical observation line per op.
-   usage: c15_driver <narrow_fixed:0|1> <cast_fixed:0|1>
+   usage: c15_driver <narrow_fixed:0|1> <cast_fixed:0|1> <sab_slice_fixed:0|1>
    Only parsing and printing live here; every semantic decision is in the extracted code. *)
 open C15_model
 
@@ -170,7 +170,8 @@ let show_obs (((bs, vs), poison) : (bobs list * vobs list) * bool) : string =
   (if poison then "P" else "-")
 
 let () =
-  let c = { narrow_fixed = (Sys.argv.(1) = "1"); cast_fixed = (Sys.argv.(2) = "1") } in
+  let c = { narrow_fixed = (Sys.argv.(1) = "1"); cast_fixed = (Sys.argv.(2) = "1");
+            sab_slice_fixed = (Array.length Sys.argv > 3 && Sys.argv.(3) = "1") } in
   let st = ref init_state in
   (try
      while true do
